@@ -3,15 +3,17 @@ Decided statically (necessary structural clauses, not the partition itself): the
 loop (every placed k-mer is removed before the next step is consulted; only available ids seed a node), one base and one
 payload fold per placed k-mer with the orientation table of Appendix B.5, the terminal-extension complement table, the
 driver loop (every id visited, build only when available, each built node added exactly once), entry points funnel into
-the same driver with the caller's strandedness, and node storage keeps sequence / extensions / payload in lockstep."""
+the same driver with the caller's strandedness, node storage keeps sequence / extensions / payload in lockstep; and
+the step function itself (complete decision table, as in C02.1): the neighbour it hands to the walk is the k-mer the
+recorded extension denotes, looked up under the caller's strandedness, and only when it is present and available."""
 from .. import dt_compress, dt_tables
 
-ASSUMPTIONS = ["the step function is scripted here; its own decision table is C02.1",
-               "extensions are symmetric (presupposed by the property)"]
+ASSUMPTIONS = ["extensions are symmetric (presupposed by the property)"]
 
 
 def run(F, rep):
     rep.engines.update(["E2-DT", "E1"])
+    dt_tables.hash_step_table(F, rep, "C01.3")
     dt_compress.extender_table(F, rep, "C01.1", graph_route=False)
     dt_compress.hash_builder_table(F, rep, "C01.2")
     dt_compress.hash_driver_table(F, rep, "C01.4")
